@@ -4,6 +4,8 @@ CONSTANTS
   Spaces = {"mut", "jmut", "formats"}
   CondDepth = 0
   ItemDepth = 0
+  CSibs = {}
+  ISibs = {}
   MutFields = 60
   JMutNodes = 80
   Tags = {0, 1, 2, 3, 4, 16, 17, 24, 25, 32, 33, 34, 40, 41, 48, 64, 65, 72, 96, 97, 128, 224, 253, 255}
